@@ -7,12 +7,18 @@ It handles all the details of formatting, import registration, and docstring gen
 for these constructs.
 """
 
+import json
 from typing import List, Tuple
 
 from pyopenapi_gen.context.render_context import RenderContext
 
 from .code_writer import CodeWriter
 from .documentation_writer import DocumentationBlock, DocumentationWriter
+
+
+def _py_str(value: object) -> str:
+    """Render spec text as a double-quoted Python string literal (JSON escapes are valid Python escapes)."""
+    return json.dumps(str(value), ensure_ascii=False)
 
 
 class PythonConstructRenderer:
@@ -96,7 +102,7 @@ class PythonConstructRenderer:
             writer.write_line(f"class {alias_name}Discriminator:")
             writer.write_line(f'    """Discriminator metadata for {alias_name} union."""')
             writer.write_line("")
-            writer.write_line(f'    property_name: str = "{discriminator.property_name}"')
+            writer.write_line(f"    property_name: str = {_py_str(discriminator.property_name)}")
             writer.write_line(f'    """The discriminator property name"""')
             writer.write_line("")
 
@@ -107,7 +113,7 @@ class PythonConstructRenderer:
                 writer.write_line("    _mapping_data: tuple[tuple[str, str], ...] = (")
                 for disc_value, schema_ref in discriminator.mapping.items():
                     schema_name = schema_ref.split("/")[-1]
-                    writer.write_line(f'        ("{disc_value}", "{schema_name}"),')
+                    writer.write_line(f'        ({_py_str(disc_value)}, "{schema_name}"),')
                 writer.write_line("    )")
                 writer.write_line("")
                 writer.write_line("    def get_mapping(self) -> dict[str, type]:")
@@ -120,7 +126,7 @@ class PythonConstructRenderer:
                 writer.write_line("        return {")
                 for disc_value, schema_ref in discriminator.mapping.items():
                     schema_name = schema_ref.split("/")[-1]
-                    writer.write_line(f'            "{disc_value}": {schema_name},')
+                    writer.write_line(f"            {_py_str(disc_value)}: {schema_name},")
                 writer.write_line("        }")
             else:
                 writer.write_line("    _mapping_data: tuple[tuple[str, str], ...] | None = None")
@@ -206,7 +212,7 @@ class PythonConstructRenderer:
         # Write Enum members
         for member_name, value in values:
             if base_type == "str":
-                writer.write_line(f'{member_name} = "{value}"')
+                writer.write_line(f"{member_name} = {_py_str(value)}")
             else:  # int
                 writer.write_line(f"{member_name} = {value}")
 
@@ -321,7 +327,7 @@ class PythonConstructRenderer:
             writer.write_line("key_transform_with_load = {")
             writer.indent()
             for api_field, python_field in sorted(field_mappings.items()):
-                writer.write_line(f'"{api_field}": "{python_field}",')
+                writer.write_line(f'{_py_str(api_field)}: "{python_field}",')
             writer.dedent()
             writer.write_line("}")
 
@@ -330,7 +336,7 @@ class PythonConstructRenderer:
             writer.indent()
             # Reverse the mapping for dump
             for api_field, python_field in sorted(field_mappings.items(), key=lambda x: x[1]):
-                writer.write_line(f'"{python_field}": "{api_field}",')
+                writer.write_line(f'"{python_field}": {_py_str(api_field)},')
             writer.dedent()
             writer.write_line("}")
 
